@@ -358,6 +358,46 @@ def _r3(model, res):
                               case={'index': i}, func=f2.name)
 
 
+MATCH_TABLE = (
+    # lookup text, array, expected position (None = #N/A): case-insensitive, ? one character, * any run, whole item, first hit
+    ('ap?', ('apple', 'xapp', 'APP'), 3), ('AP?', ('ap', 'app', 'apq'), 2), ('a*', ('b', 'ab', 'ac'), 2), ('a*e', ('apples', 'apple'), 2),
+    ('zz?', ('apple', 'zz'), None), ('a.?', ('axb', 'a.b'), 2), ('a+?', ('aab', 'a+b'), 2), ('apple', ('apples', 'Apple'), 2),
+    # line breaks inside a cell are ordinary characters
+    ('ap?', ('app\n', 'app'), 2), ('ap?', ('xx', 'ap\n'), 2), ('a*e', ('b', 'a\nle'), 2), ('apple', ('apple\n', 'apple'), 2),
+)
+
+
+def _match_table(model, res, m, f, NA):
+    """R4 (constant table): MATCH(text, constants, 0) on constant lookups; folding of pure stdlib text functions only.  A run that is not one
+    precise outcome is undecided."""
+    n = 0
+    for look, arr, want in MATCH_TABLE:
+        try:
+            outs = _runs(model, 'MATCH', lambda: [Const(look), ListV([Const(a) for a in arr]), Const(0)])
+        except Unmodelled as e:
+            res.ob('R4', 'MATCH', {'lookup': look, 'array': list(arr)}, True, 'undecided: %s' % e)
+            continue
+        if len(outs) != 1 or outs[0].imprecise or outs[0].kind != 'return':
+            res.ob('R4', 'MATCH', {'lookup': look, 'array': list(arr)}, True, 'undecided: %d outcomes' % len(outs))
+            continue
+        v = outs[0].value
+        if want is None:
+            ok = isinstance(v, Err) and v.name == NA
+        else:
+            ok = isinstance(v, Const) and v.value == want and not isinstance(v.value, bool)
+        if not isinstance(v, (Err, Const)):
+            res.ob('R4', 'MATCH', {'lookup': look, 'array': list(arr)}, True, 'undecided: %r' % (v,))
+            continue
+        n += 1
+        res.ob('R4', 'MATCH', {'lookup': look, 'array': list(arr), 'result': repr(v)}, ok)
+        if not ok:
+            res.violation('R4', 'function:MATCH:text-table', m.where(f),
+                          'MATCH(%r, %r, 0) gives %r; the first item equal to the lookup text without regard to case, with ? = one character and '
+                          '* = any run of characters and the whole item compared, is %s' % (look, list(arr), v, 'number %d' % want if want else 'none (#N/A)'),
+                          func=f.name)
+    res.soft_floor('MATCH table rows decided', n, 8)
+
+
 def _r4(model, res, E):
     m, f = model.registered('MATCH')
     NA = E['#N/A']
@@ -379,6 +419,7 @@ def _r4(model, res, E):
         n += 1
         problems = []
         hits = {}
+        regex_based = False
         for (t, alt, s) in o.notes:
             if isinstance(s, Atom) and s.op == 'fnmatch':
                 subj, pat = s.args[0], s.args[1]
@@ -394,10 +435,16 @@ def _r4(model, res, E):
                     hits[item] = bool(alt)
             elif isinstance(s, Atom) and s.op == 'eq':
                 problems.append('text is compared with == (%r): case-sensitive and without wildcards' % (s,))
+            elif isinstance(s, Atom) and s.op in ('re.match', 're.search', 're.fullmatch'):
+                regex_based = True        # a hand-built regular expression: judged on the constant table below
             elif isinstance(s, Atom):
                 problems.append('decision on %r' % (s,))
             elif s is None and 'in ' in t:
                 problems.append('decision "%s" selects a different comparison for some lookup texts' % t[:60])
+        if regex_based and not problems:
+            n += 1
+            res.ob('R4', 'MATCH', {'lookup': 'text', 'trace': 'regular expression'}, True, 'judged on the constant wildcard table')
+            continue
         if not problems:
             first = [i for i in sorted(hits) if hits[i]]
             if first:
@@ -416,6 +463,7 @@ def _r4(model, res, E):
             res.violation('R4', 'function:MATCH:text', m.where(f),
                           'MATCH(text, array, 0): %s' % '; '.join(problems[:3]), func=f.name)
     res.soft_floor('MATCH text traces', n, 3)
+    _match_table(model, res, m, f, NA)
     if n == 0 and outs:
         # the text branch is not followed precisely (e.g. a pattern assembled character by character): fall back on the structural
         # judgement shared with C11.R3 - a regular expression applied with match()/search() and no end anchor matches prefixes
